@@ -55,6 +55,23 @@ struct Inner {
     in_search: Vec<bool>,
     max_decisions: u64,
     budget_exhausted: bool,
+    /// position in a forced schedule (its entries are in increasing decision order)
+    forced_cursor: usize,
+}
+
+/// Forced schedules: the thread recorded for decision `d`, if any. The list is in increasing
+/// decision order and decisions only grow, so a cursor replaces a scan (volume runs record
+/// thousands of hand-offs over millions of decisions).
+fn forced_lookup(policy: &Policy, cursor: &mut usize, d: u64) -> Option<usize> {
+    if let Policy::Forced { handoffs } = policy {
+        while *cursor < handoffs.len() && handoffs[*cursor].0 < d {
+            *cursor += 1;
+        }
+        if *cursor < handoffs.len() && handoffs[*cursor].0 == d {
+            return Some(handoffs[*cursor].1);
+        }
+    }
+    None
 }
 
 pub struct Sched {
@@ -89,6 +106,7 @@ impl Sched {
                 in_search: vec![false; n],
                 max_decisions,
                 budget_exhausted: false,
+                forced_cursor: 0,
             }),
             cvs: (0..n).map(|_| Condvar::new()).collect(),
             main_cv: Condvar::new(),
@@ -170,33 +188,39 @@ impl Sched {
                 std::panic::panic_any(DECISION_BUDGET_PAYLOAD);
             }
         }
-        let switch_to: Option<usize> = match g.policy.clone() {
-            Policy::Forced { handoffs } => handoffs
-                .iter()
-                .find(|(x, _)| *x == d)
-                .map(|(_, t)| *t)
-                .filter(|t| *t != me && *t < g.alive.len() && g.alive[*t]),
-            Policy::Uniform { q } => {
-                if g.rng.below(q.max(1)) == 0 {
-                    Sched::choose_other(&mut g, me)
-                } else {
-                    None
+        // what the policy wants: None = keep going, Some(None) = some other thread (drawn from the
+        // PRNG), Some(Some(t)) = thread t (forced schedule)
+        let want: Option<Option<usize>> = {
+            let inner = &mut *g;
+            match &inner.policy {
+                Policy::Forced { .. } => forced_lookup(&inner.policy, &mut inner.forced_cursor, d).map(Some),
+                Policy::Uniform { q } => {
+                    if inner.rng.below((*q).max(1)) == 0 {
+                        Some(None)
+                    } else {
+                        None
+                    }
+                }
+                Policy::Pct { points } => {
+                    if points.contains(&d) {
+                        Some(None)
+                    } else {
+                        None
+                    }
+                }
+                Policy::OpBoundary => {
+                    if site >= 3 && inner.rng.below(2) == 0 {
+                        Some(None)
+                    } else {
+                        None
+                    }
                 }
             }
-            Policy::Pct { points } => {
-                if points.contains(&d) {
-                    Sched::choose_other(&mut g, me)
-                } else {
-                    None
-                }
-            }
-            Policy::OpBoundary => {
-                if site >= 3 && g.rng.below(2) == 0 {
-                    Sched::choose_other(&mut g, me)
-                } else {
-                    None
-                }
-            }
+        };
+        let switch_to: Option<usize> = match want {
+            None => None,
+            Some(None) => Sched::choose_other(&mut g, me),
+            Some(Some(t)) => Some(t).filter(|t| *t != me && *t < g.alive.len() && g.alive[*t]),
         };
         if let Some(t) = switch_to {
             g.handoffs.push((d, t));
@@ -221,14 +245,14 @@ impl Sched {
         }
         let d = g.decision;
         g.decision += 1;
-        let next = match g.policy.clone() {
-            Policy::Forced { handoffs } => handoffs
-                .iter()
-                .find(|(x, _)| *x == d)
-                .map(|(_, t)| *t)
-                .filter(|t| *t < g.alive.len() && g.alive[*t])
-                .or_else(|| (0..g.alive.len()).find(|t| g.alive[*t])),
-            _ => Sched::choose_other(&mut g, me),
+        let forced = {
+            let inner = &mut *g;
+            forced_lookup(&inner.policy, &mut inner.forced_cursor, d)
+        };
+        let next = if matches!(g.policy, Policy::Forced { .. }) {
+            forced.filter(|t| *t < g.alive.len() && g.alive[*t]).or_else(|| (0..g.alive.len()).find(|t| g.alive[*t]))
+        } else {
+            Sched::choose_other(&mut g, me)
         };
         match next {
             Some(t) => {
